@@ -27,11 +27,11 @@ import (
 
 const (
 	poolTick      = 4 * time.Millisecond
-	poolKeepAlive = 120 * time.Millisecond
-	poolIdleTO    = 480 * time.Millisecond
+	poolKeepAlive = 360 * time.Millisecond
+	poolIdleTO    = 1440 * time.Millisecond
 	poolShort     = 10 * time.Millisecond
-	poolMedium    = 270 * time.Millisecond // > KeepAlive + margin, < IdleConnTimeout - margin (measured from last use)
-	poolLong      = 1100 * time.Millisecond
+	poolMedium    = 810 * time.Millisecond // > KeepAlive + margin, < IdleConnTimeout - margin (measured from last use)
+	poolLong      = 3300 * time.Millisecond
 )
 
 type pconn struct {
@@ -44,6 +44,7 @@ type pconn struct {
 	mu     sync.Mutex
 	closed bool // socket closed by the client
 	dead   bool // server side gone
+	eofSeen chan struct{} // closed once the EOF of a kill has been taken by the reader (or the socket closed)
 	nPing  int
 	held   map[int]uint64 // call k -> seq, waiting for `finish`
 }
@@ -150,12 +151,30 @@ func (c *pconn) kill() {
 	c.mu.Unlock()
 	if !already {
 		go func() {
+			defer close(c.eofSeen)
 			select {
 			case c.feed <- feedItem{err: io.EOF}:
 			case <-c.closeC:
 			case <-time.After(3 * time.Second):
 			}
 		}()
+	}
+}
+
+func (e *poolEnv) waitKilled(addr string) {
+	e.mu.Lock()
+	conns := append([]*pconn(nil), e.conns...)
+	e.mu.Unlock()
+	for _, c := range conns {
+		c.mu.Lock()
+		dead := c.dead
+		c.mu.Unlock()
+		if c.addr == addr && dead {
+			select {
+			case <-c.eofSeen:
+			case <-time.After(3 * time.Second):
+			}
+		}
 	}
 }
 
@@ -222,7 +241,7 @@ func (e *poolEnv) dial(network, address, codec string) (*rpc.Conn, error) {
 		e.mu.Unlock()
 		return nil, fmt.Errorf("connection refused")
 	}
-	c := &pconn{id: len(e.conns), addr: address, env: e, feed: make(chan feedItem), closeC: make(chan struct{}), held: map[int]uint64{}}
+	c := &pconn{id: len(e.conns), addr: address, env: e, feed: make(chan feedItem), closeC: make(chan struct{}), held: map[int]uint64{}, eofSeen: make(chan struct{})}
 	e.conns = append(e.conns, c)
 	e.dials++
 	e.open[address]++
@@ -404,7 +423,16 @@ type poolResult struct {
 	actions []string
 	obs     []string
 	env     *poolEnv
+	// drift: real time spent beyond the nominal duration of the actions since the last long idle
+	// phase (the model's clock advances only in idle phases); maxDrift is its maximum over the run.
+	drift, maxDrift time.Duration
 }
+
+// poolDriftBudget: nominal connection ages stay ≥ 70 ms away from the KeepAlive threshold from
+// below and ≥ 580 ms from IdleConnTimeout (generator: at most five short idles between long ones);
+// a run whose drift exceeds the budget does not satisfy the timing assumption of the
+// correspondence and is repeated (and left out of the comparison if it never fits).
+const poolDriftBudget = 150 * time.Millisecond
 
 func runPoolScenario(sc poolScenario) *poolResult {
 	e := newPoolEnv(sc)
@@ -412,6 +440,11 @@ func runPoolScenario(sc poolScenario) *poolResult {
 	for _, a := range sc.Actions {
 		f := strings.Fields(a)
 		ok := true
+		t0 := time.Now()
+		var nominal time.Duration
+		if f[0] == "idle" {
+			nominal = map[string]time.Duration{"short": poolShort, "medium": poolMedium, "long": poolLong}[f[1]]
+		}
 		switch f[0] {
 		case "call", "go", "rt", "ping":
 			e.startCall(atoi(f[2]), f[1], f[0], false)
@@ -496,9 +529,25 @@ func runPoolScenario(sc poolScenario) *poolResult {
 			}
 			time.Sleep(200 * time.Microsecond)
 		}
-		time.Sleep(300 * time.Microsecond)
+		if f[0] == "kill" {
+			// the connection must have seen the end of its stream before the next action
+			e.waitKilled(f[1])
+		}
+		if !gate.SettleAllowSleep(20*time.Millisecond) && os.Getenv("CORR_DEBUG") != "" {
+			fmt.Fprintln(os.Stderr, "settle failed:", gate.LastBusy)
+		}
 		res.actions = append(res.actions, a)
 		res.obs = append(res.obs, e.observe())
+		res.drift += time.Since(t0) - nominal
+		if os.Getenv("CORR_DEBUG") != "" {
+			fmt.Fprintf(os.Stderr, "drift %-14s %v (total %v)\n", a, time.Since(t0)-nominal, res.drift)
+		}
+		if res.drift > res.maxDrift {
+			res.maxDrift = res.drift
+		}
+		if a == "idle long" {
+			res.drift = 0
+		}
 		e.mu.Lock()
 		for _, c := range e.calls {
 			if c.done && c.doneAt < 0 {
@@ -687,6 +736,7 @@ func genPoolScenario(r *prng.R) poolScenario {
 	var held []int
 	addrs := []string{"A", "A", "A", "B", "C"}
 	idles := 0
+	shorts := 0 // short idles since the last long one: at most five, so that nominal ages stay away from the thresholds
 	for i := 0; i < n; i++ {
 		a := addrs[r.Intn(len(addrs))]
 		x := r.Intn(100)
@@ -711,14 +761,27 @@ func genPoolScenario(r *prng.R) poolScenario {
 		case x < 88:
 			if idles < 4 {
 				idles++
-				sc.Actions = append(sc.Actions, "idle "+[]string{"short", "medium", "medium", "long"}[r.Intn(4)])
+				kind := []string{"short", "medium", "medium", "long"}[r.Intn(4)]
+				if kind == "short" && shorts >= 5 {
+					kind = "medium"
+				}
+				if kind == "short" {
+					shorts++
+				}
+				if kind == "long" {
+					shorts = 0
+				}
+				sc.Actions = append(sc.Actions, "idle "+kind)
 			}
 		case x < 94:
 			sc.Actions = append(sc.Actions, "closeidle")
 		case x < 96:
 			sc.Actions = append(sc.Actions, "close")
 		default:
-			sc.Actions = append(sc.Actions, "idle short")
+			if shorts < 5 {
+				shorts++
+				sc.Actions = append(sc.Actions, "idle short")
+			}
 		}
 	}
 	for _, k := range held {
@@ -743,6 +806,16 @@ func poolScenarios(seed uint64, tier string) []poolScenario {
 
 func runOnePool(i int, sc poolScenario) *scenarioOut {
 	res := runPoolScenario(sc)
+	retries := 0
+	timed := !strings.Contains(strings.Join(sc.Actions, " "), "holdclose")
+	for timed && res.maxDrift > poolDriftBudget && retries < 4 {
+		// the machine stalled: the run says nothing about the timed behaviour; repeat it
+		res.env.finish()
+		retries++
+		time.Sleep(time.Duration(retries) * 50 * time.Millisecond)
+		res = runPoolScenario(sc)
+	}
+	disturbed := timed && res.maxDrift > poolDriftBudget
 	if os.Getenv("CORR_DEBUG") != "" {
 		fmt.Fprintf(os.Stderr, "scenario %d %s %s\n", i, sc.Name, sc.header())
 		for j, a := range res.actions {
@@ -756,7 +829,12 @@ func runOnePool(i int, sc poolScenario) *scenarioOut {
 		inl = append(inl, a)
 		iml = append(iml, res.obs[j])
 	}
-	if !strings.Contains(strings.Join(sc.Actions, " "), "holdclose") {
+	out.Counters["timing.retries"] = retries
+	out.Counters[fmt.Sprintf("timing.drift_ms_le_%d", driftBucket(res.maxDrift))]++
+	if disturbed {
+		out.Counters["timing.disturbed_left_out"]++
+	}
+	if !strings.Contains(strings.Join(sc.Actions, " "), "holdclose") && !disturbed {
 		// scenarios that hold a socket close for seconds are monitor-only (real time passes)
 		out.Streams = map[string][2][]string{"p": {inl, iml}}
 	}
@@ -779,6 +857,15 @@ func runOnePool(i int, sc poolScenario) *scenarioOut {
 	return out
 }
 
+func driftBucket(d time.Duration) int {
+	for _, b := range []int{10, 25, 50, 100, 150, 1000} {
+		if d <= time.Duration(b)*time.Millisecond {
+			return b
+		}
+	}
+	return 100000
+}
+
 func runPool(dir string, seed uint64, tier, only, replay string) *rep.Report {
 	rp := rep.New("pool", seed, tier)
 	scs := poolScenarios(seed, tier)
@@ -797,7 +884,7 @@ func runPool(dir string, seed uint64, tier, only, replay string) *rep.Report {
 		}
 		return rp
 	}
-	parentLoopN("pool", dir, len(scs), []string{"-out", dir, "-seed", fmt.Sprint(seed), "-tier", tier}, rp, []string{"p"}, []string{"C13"}, 30*time.Second, 12)
+	parentLoopN("pool", dir, len(scs), []string{"-out", dir, "-seed", fmt.Sprint(seed), "-tier", tier}, rp, []string{"p"}, []string{"C13"}, 150*time.Second, 12)
 	return rp
 }
 
